@@ -12,7 +12,10 @@ def run(ctx):
     # long literals: ten-digit blocks, up to 50 significant digits, fractions, exponents, separators
     r = ctx.tlc("long-literals", "mc/MC_Lexer.tla", "mc/MC_Lexer_long.cfg", {"K": 6 if ctx.thorough else 5}, min_states=19000, timeout=3400, heap="14g")
     ctx.replay("long-literals-parse-eval", "lexparse", r["dump"], min_cases=19000)
+    # random spellings: integer / fraction / exponent parts of 0-40 digits, separators anywhere, 12 syntactic positions
+    tr = ctx.record("literals-random", "parse", ["-mode", "numbers", "-n", 60000 if ctx.thorough else 4000])
+    ctx.validate("literals-random-validate", "trace/Trace_Parse.tla", "trace/Trace_Parse.cfg", tr, "parse", shards=14 if ctx.thorough else 3)
     return ctx.finish(
         rule="every string S of length <= %d over {0,1,9,.,e,E,+,-,_,a,x} embedded as [S]; the tree is compared with "
-             "each literal projected to the exact decimal the real evaluator assigns to it; non-trivial = accepted texts" % k,
+             "each literal projected to the exact decimal the real evaluator assigns to it; plus seeded random spellings with parts of up to 40 digits validated by Trace_Parse; non-trivial = accepted texts" % k,
         assumptions=["exponents stay within the decimal library's range in this enumeration"])
